@@ -133,8 +133,11 @@ func arrayGetLength(ar *Array) (r.Element, error) {
 func arrayGetReverse(ar *Array) (r.Element, error) {
 	var result []r.Element
 	l := len(ar.value)
+	// the reversed list is a new list: like every other list that is built from existing
+	// values it holds copies, so changing one of its items in place does not write into
+	// this one
 	for i := 0; i < l; i++ {
-		result = append(result, ar.value[l-1-i])
+		result = append(result, DuplicateValue(ar.value[l-1-i]))
 	}
 
 	return NewArray(result), nil
